@@ -295,10 +295,10 @@ func (e aeEvent) String() string {
 
 // prober tracks what the (simulated) peer has used so far and turns abstract events into frames.
 type prober struct {
-	vc       *quic.VerifAdvEnfConn
-	usedSD   [3]int64
-	opened   [3]int64 // index 1 bidi, 2 uni (server-initiated): highest stream number opened
-	cids     int64    // NEW_CONNECTION_ID frames sent
+	vc        *quic.VerifAdvEnfConn
+	usedSD    [3]int64
+	opened    [3]int64 // index 1 bidi, 2 uni (server-initiated): highest stream number opened
+	cids      int64    // NEW_CONNECTION_ID frames sent
 	localOpen bool
 }
 
